@@ -250,7 +250,7 @@ def gen_document(rng):
     return stem + ".bin", "application/octet-stream", bytes(rng.randrange(256) for _ in range(rng.randint(0, 200)))
 
 
-def _attachment_part(rng, name, mime, data, disposition="attachment", cid=None, crlf=False):
+def _attachment_part(rng, name, mime, data, disposition="attachment", cid=None, crlf=False, decl="named"):
     maintype, subtype = mime.split("/", 1)
     if crlf:
         cte = "base64"
@@ -263,8 +263,16 @@ def _attachment_part(rng, name, mime, data, disposition="attachment", cid=None, 
     params = {}
     if maintype == "text":
         params["charset"] = "utf-8"
-    return _leaf(maintype, subtype, data, cte, params=params, disposition=disposition, filename=name, cid=cid,
-                 fn_style=rng.choice(["plain", "plain", "rfc2231"]))
+    if decl == "ctype-name" and name.isascii():
+        params["name"] = name            # the name stands only in the Content-Type
+    p = _leaf(maintype, subtype, data, cte, params=params, disposition=disposition,
+              filename=None if decl in ("bare", "ctype-name") and (decl == "bare" or name.isascii()) else name, cid=cid,
+              fn_style=rng.choice(["plain", "plain", "rfc2231"]))
+    if decl == "upper":
+        v = p["Content-Disposition"]
+        del p["Content-Disposition"]
+        p["Content-Disposition"] = v.replace("attachment", "ATTACHMENT", 1)
+    return p
 
 
 # ----------------------------------------------------------------------------- headers
@@ -409,8 +417,12 @@ class Truth(dict):
     pass
 
 
-def gen_message(rng, shape=None, for_mbox=False, max_att=3, crlf=False):
-    """-> (raw bytes with LF line ends, truth)."""
+def gen_message(rng, shape=None, for_mbox=False, max_att=3, crlf=False, mid=None, variants=True):
+    """-> (raw bytes with LF line ends, truth).  `mid`: the Message-ID to write ("" = no Message-ID header at all,
+    None = a fresh one; 6% of the messages have none).  `variants`: attachments are also DECLARED in the other ways
+    MIME allows — a bare `Content-Disposition: attachment` without any file name (truth name "" = none declared),
+    the name only as `name=` of the Content-Type, an upper-case disposition — and may stand BEFORE the body parts
+    (shapes mixed-att-first / mixed-textatt-first: a nameless text/plain or text/html ATTACHMENT precedes the body)."""
     charset, alpha = rng.choice(CHARSETS)
     hcharset, halpha = rng.choice(CHARSETS[1:])
     # letters from every part of the two repertoires (C1 controls of iso-8859-1, every row of the CJK sets, ...)
@@ -430,10 +442,13 @@ def gen_message(rng, shape=None, for_mbox=False, max_att=3, crlf=False):
     when = dt.datetime(rng.randint(1990, 2035), rng.randint(1, 12), rng.randint(1, 28), rng.randint(0, 23),
                        rng.randint(0, 59), rng.randint(0, 59),
                        tzinfo=dt.timezone(dt.timedelta(minutes=rng.choice([0, 0, 60, -300, 330, 345, -720, 840]))))
-    mid = "<%x.%d@%s>" % (rng.getrandbits(40), rng.randint(1, 9999), rng.choice(["example.com", "mail.local"]))
+    fresh_mid = "<%x.%d@%s>" % (rng.getrandbits(40), rng.randint(1, 9999), rng.choice(["example.com", "mail.local"]))
+    if mid is None:
+        mid = "" if (variants and rng.random() < 0.06) else fresh_mid
 
     shape = shape or rng.choice(["plain", "html", "alt", "mixed-plain", "mixed-alt", "alt-related", "mixed-alt-related",
-                                 "mixed-html", "nested-mixed", "mixed-none", "single-attachment"])
+                                 "mixed-html", "nested-mixed", "mixed-none", "single-attachment"]
+                                + (["mixed-att-first", "mixed-textatt-first"] if variants else []))
     plain = html = None
     attachments = []   # (name, mime, bytes) in document order
     notes = {"shape": shape, "charset": charset, "hcharset": hcharset}
@@ -465,8 +480,22 @@ def gen_message(rng, shape=None, for_mbox=False, max_att=3, crlf=False):
             pn, pm, _pd = rng.choice(attachments)
             if pn.rsplit(".", 1)[-1].lower() != name.rsplit(".", 1)[-1].lower() and not pm.startswith("image/"):
                 mime = pm
-        attachments.append((name, mime, data))
-        return _attachment_part(rng, name, mime, data, disposition=disposition, cid=cid, crlf=crlf)
+        decl = "named"
+        if variants and not image and disposition == "attachment":
+            decl = rng.choice(["named"] * 5 + ["bare", "bare", "ctype-name", "upper"])
+        attachments.append(("" if decl == "bare" else name, mime, data))
+        if decl != "named":
+            notes.setdefault("att_decl", []).append(decl)
+        return _attachment_part(rng, name, mime, data, disposition=disposition, cid=cid, crlf=crlf, decl=decl)
+
+    def mk_text_att():
+        """a text/plain or text/html part that is an ATTACHMENT without a file name (what add_attachment(str) writes)"""
+        sub = rng.choice(["plain", "plain", "html"])
+        text = _text(rng, alpha, html=(sub == "html")) + "\n"
+        data = text.encode("utf-8")
+        attachments.append(("", "text/" + sub, data))
+        notes.setdefault("att_decl", []).append("bare-text")
+        return _leaf("text", sub, data, "base64", params={"charset": "utf-8"}, disposition="attachment", filename=None)
 
     def mk_related():
         rel = MIMEMultipart("related")
@@ -504,6 +533,15 @@ def gen_message(rng, shape=None, for_mbox=False, max_att=3, crlf=False):
             root.attach(mk_alt())
         elif shape == "mixed-alt-related":
             root.attach(mk_alt(related=True))
+        elif shape == "mixed-att-first":
+            for _ in range(rng.randint(1, 2)):
+                root.attach(mk_att())
+            root.attach(rng.choice([mk_plain, mk_alt, mk_html])())
+            n_att = rng.randint(0, 1)
+        elif shape == "mixed-textatt-first":
+            root.attach(mk_text_att())
+            root.attach(rng.choice([mk_plain, mk_alt, mk_html])())
+            n_att = rng.randint(0, 1)
         elif shape == "nested-mixed":
             inner = MIMEMultipart("mixed")
             inner.attach(mk_alt(related=rng.random() < 0.5))
@@ -563,7 +601,8 @@ def gen_message(rng, shape=None, for_mbox=False, max_att=3, crlf=False):
     if rto:
         put_addrs("Reply-To", rto)
     root["Date"] = email.utils.format_datetime(when)
-    root["Message-ID"] = mid
+    if mid:
+        root["Message-ID"] = mid
     raw = root.as_bytes()
     if hand_value is not None:
         raw = raw.replace(b"Subject: @@HAND@@", b"Subject: " + hand_value.encode("ascii"), 1)
@@ -630,9 +669,29 @@ def gen_mbox(rng, n_msgs, crlf=False, max_att=2):
     mbox readers, this one included, do not undo From_ quoting."""
     out = []
     truths = []
+    stored = []     # escaped bytes of the messages written so far
+    import copy
     for _ in range(n_msgs):
+        # histories inside ONE mailbox: a message may lack the Message-ID header (drafts, notifications), carry the
+        # Message-ID of an earlier, different message (list copy / direct copy), or be an exact second copy of an
+        # earlier message (one copy per label) — every stored message is one result, whatever came before it
+        r = rng.random()
+        mid = None
+        if r < 0.15:
+            mid = ""
+        elif r < 0.27 and any(t0["message_id"] for t0 in truths):
+            mid = rng.choice([t0["message_id"] for t0 in truths if t0["message_id"]])
+        elif r < 0.35 and stored:
+            k = rng.randrange(len(stored))
+            t = copy.deepcopy(truths[k])
+            t["notes"]["copy_of"] = k
+            sender = rng.choice(["MAILER-DAEMON", t["from_"][1], "-", "user@host"])
+            out.append(("From %s %s" % (sender, asctime(rng))).encode("ascii") + b"\n" + stored[k] + rng.choice([b"\n", b"\n\n", b""]))
+            stored.append(stored[k])
+            truths.append(t)
+            continue
         for _attempt in range(20):
-            raw, t = gen_message(rng, for_mbox=True, max_att=max_att, crlf=crlf)
+            raw, t = gen_message(rng, for_mbox=True, max_att=max_att, crlf=crlf, mid=mid)
             esc, n = mboxrd_escape(raw)
             # account for every escape in the ground truth: only 7bit/8bit text leaves may carry From_ lines
             tp, th = t["plain"], t["html"]
@@ -656,6 +715,7 @@ def gen_mbox(rng, n_msgs, crlf=False, max_att=2):
         if not esc.endswith(b"\n"):
             esc += b"\n"
         out.append(sep + b"\n" + esc + gap)
+        stored.append(esc)
         truths.append(t)
     data = b"".join(out)
     if crlf:
